@@ -499,7 +499,6 @@ class DiscriminatedUnionUnpackerBuilder(AbstractUnpackerBuilder):
                 spec.builder.ensure_object_imported(spec.builder.__class__)
                 lines.append(
                     "CodeBuilder(variant, "
-                    "dialect=_dialect, "
                     f"format_name={repr(spec.builder.format_name)}, "
                     "default_dialect=_default_dialect)"
                     ".add_unpack_method()"
@@ -515,7 +514,6 @@ class DiscriminatedUnionUnpackerBuilder(AbstractUnpackerBuilder):
             lines.append(f"{spec.attrs_registry_name}[variant] = {attrs}")
             lines.append(
                 "CodeBuilder(variant, "
-                "dialect=_dialect, "
                 f"format_name={repr(spec.builder.format_name)}, "
                 "default_dialect=_default_dialect,"
                 f"attrs={attrs},"
